@@ -201,6 +201,40 @@ func (an *Analysis) txCompute(fr *txFrame, v ssa.Value) (constant.Value, error) 
 			return nil, txUndecided{"callee with several results"}
 		}
 		return res[0], nil
+	case *ssa.Lookup, *ssa.Field, *ssa.Extract:
+		// a lookup in a constant table: m[k], m[k].f, v, ok := m[k]
+		field, comp := -1, -1
+		base := v
+		if f, ok := base.(*ssa.Field); ok {
+			field, base = f.Field, f.X
+		}
+		if e, ok := base.(*ssa.Extract); ok {
+			comp, base = e.Index, e.Tuple
+		}
+		cm, lk := constMapLookup(base)
+		if cm == nil || lk.CommaOk != (comp >= 0) {
+			break
+		}
+		k, err := an.txVal(fr, lk.Index)
+		if err != nil {
+			return nil, err
+		}
+		val, present := cm.vals[k.ExactString()]
+		if comp == 1 {
+			if field >= 0 {
+				break
+			}
+			return constant.MakeBool(present), nil
+		}
+		if !present {
+			val = cm.zero
+		}
+		switch {
+		case cm.fields == 0 && field < 0:
+			return val[0], nil
+		case cm.fields > 0 && field >= 0 && field < len(val) && val[field] != nil:
+			return val[field], nil
+		}
 	case *ssa.Phi:
 		return nil, txUndecided{"phi evaluated out of order"}
 	case *ssa.Parameter:
